@@ -29,15 +29,10 @@ HERE = os.path.dirname(os.path.abspath(__file__))
 # Genuine defects of the unchanged tree found by this check (reported to the integrator);
 # the keys identify the failing input class exactly, anything else is still a violation.
 PENDING_FINDINGS = {
-    'error-domain-lost:quark-function-owned-by-class':
-        "an error-quark function whose name starts with the symbol prefix of a CLASS (foo_bar_error_quark "
-        "next to class FooBar) and whose enumeration is not itself a registered GType (no foo_bar_error_get_type) "
-        "is moved into the class by _pair_static_method (Namespace.float) before _pair_quarks_with_enums walks "
-        "namespace.values(): the enumeration FooBarError gets no glib:error-domain",
-    'default-value-dropped:empty-string':
-        'a property whose reported default is the empty string (<property ... default-value=""/>, what gdump.c '
-        'writes for g_param_spec_string(..., "", ...)) loses it: GIRWriter._write_property tests '
-        '`if prop.default_value:` so the attribute is not written',
+    # (none at present.  Repaired in /repo and re-validated against the real code by this check:
+    #  'error-domain-lost:quark-function-owned-by-class' — commit 51470ab, _pair_quarks_with_enums now walks
+    #  Namespace.symbols; 'default-value-dropped:empty-string' — commit 27a045c, _write_property tests `is not None`.
+    #  Both input classes are still generated and hand-fed (corpus/C12/edge.json) and now pass unsuppressed.)
 }
 
 # ---------------------------------------------------------------------------------------------
@@ -1057,8 +1052,7 @@ def check_oracle(ctx, cnt, case, full):
                     if gir_type_repr(pe, ns) != et:
                         fail('property-type', '%s:%s type %r, reported %s = %r' % (own, p['name'], gir_type_repr(pe, ns), p['type'], et))
                 if pe.get('default-value') != p.get('default'):
-                    fail('property-default', '%s:%s default-value=%r, reported %r' % (own, p['name'], pe.get('default-value'), p.get('default')),
-                         pending='default-value-dropped:empty-string' if p.get('default') == '' and pe.get('default-value') is None else None)
+                    fail('property-default', '%s:%s default-value=%r, reported %r' % (own, p['name'], pe.get('default-value'), p.get('default')))
                 cnt.hit('oracle:default:%s' % ('none' if p.get('default') is None else 'empty' if p['default'] == '' else 'value'))
             # ---- signals
             gs = el.findall('glib:signal', _GIRNS)
@@ -1171,8 +1165,7 @@ def check_oracle(ctx, cnt, case, full):
         cnt.hit('oracle:quark:%s:%s' % ('registered' if registered else 'plain', owner))
         if got != it['domain']:
             fail('error-domain', 'enumeration %s: glib:error-domain=%r, %s reports %r'
-                 % (match[0], got, it['function'], it['domain']),
-                 pending='error-domain-lost:quark-function-owned-by-class' if owner in ('class', 'fundamental') and got is None else None)
+                 % (match[0], got, it['function'], it['domain']))
     return fails
 
 
@@ -1303,6 +1296,25 @@ def compare_case(ctx, cnt, m, case, pre, full, res, state):
                 if a[k] != b.get(k):
                     differ('%s.%s impl=%r model=%r' % (a['name'], k, a[k], b.get(k)))
                     return
+    # the error-quark functions _pair_quarks_with_enums walks, in its order (Namespace.symbols), and which of
+    # them a class took as static method (Namespace.float): both are public attributes of ast.Namespace
+    try:
+        rns = full['namespace']
+        EQ = m.ast.ErrorQuarkFunction
+        r_order = [f.symbol for f in rns.symbols.values() if isinstance(f, EQ)]
+        r_float = [f.symbol for f in rns.symbols.values() if isinstance(f, EQ) and f not in list(rns.names.values())]
+    except Exception as e:
+        r_order = None
+        if not state.get('nosymbols'):
+            state['nosymbols'] = True
+            ctx.broken.append('correspondence c12.merge: ast.Namespace.symbols / ErrorQuarkFunction no longer exists/has changed '
+                              '(%s: %s); the error domains are still compared on the enumerations' % (type(e).__name__, e))
+    if r_order is not None:
+        if r_order != res.get('quark_order') or r_float != res.get('floated'):
+            differ('error-quark functions in Namespace.symbols order impl=%r (floated %r) model=%r (floated %r)'
+                   % (r_order, r_float, res.get('quark_order'), res.get('floated')))
+        else:
+            cnt.hit('merge:quarks:%d:floated:%d' % (min(len(r_order), 3), min(len(r_float), 2)))
     # the order the writer keeps: properties and signals sorted by name (model: mergeSort)
     try:
         root = ET.fromstring(full['gir'].encode('utf-8'))
